@@ -295,6 +295,10 @@ DevExplains(fid, e) ==
     [] fid = "F02o" ->   \* BLTE EncryptedHeader: encryption-type byte other than 'S' / 'A' reaches an expect()
          /\ e.fmt = "blte_enc_header" /\ Symptom(e) = "panic" /\ e.mc = "valid encryption type byte"
          /\ Has(e, "enc_type") /\ ~ValEQ(e.h["enc_type"], 83) /\ ~ValEQ(e.h["enc_type"], 65)
+    [] fid = "F02p" ->   \* patch index: key size of a block body above 16 copied into 16-byte arrays
+         /\ e.fmt = "patch_index" /\ Symptom(e) = "panic"
+         /\ e.mc = "range end index N out of range for slice of length N"
+         /\ e.loc = "cascette-formats/src/patch_index/entry.rs"
     [] OTHER -> FALSE
 
 FindingOrder == <<"F02a", "F02b", "F02c", "F02d", "F02e", "F02f", "F02g", "F02h", "F02i", "F02j", "F02k",
